@@ -136,7 +136,7 @@ def tlc(ctx, module, cfg=None, env=None, workers=NCPU, timeout=900, heap="4g", s
     meta = tempfile.mkdtemp(prefix="tlc-", dir=ctx.scratch)
     gc = ["-XX:+UseSerialGC", "-Xms256m"] if workers == 1 else ["-XX:+UseParallelGC", "-XX:ParallelGCThreads=%d" % max(2, min(8, workers))]
     lib = (env or {}).get("VERIF_TLA_LIB") or os.path.join(SPEC, "gen")
-    cmd = ["timeout", str(timeout), "java"] + gc + ["-DTLA-Library=" + lib, "-Xmx" + heap, "-Xss64m",
+    cmd = ["timeout", str(timeout), "java"] + gc + ["-DTLA-Library=" + lib, "-Djava.io.tmpdir=" + meta, "-Xmx" + heap, "-Xss64m",
            "-cp", JAR, "tlc2.TLC", "-workers", str(workers), "-metadir", meta, "-noGenerateSpecTE"]
     if cfg:
         cmd += ["-config", cfg]
